@@ -342,16 +342,22 @@ func (cc *checkCtx) report(obs []*Obligation, reports []*FuncReport, writeBaseli
 			total++
 			if o.Res.Status == "sat" {
 				discharged++
+			} else if o.Res.Status == "error" {
+				// a rejected reachability query: the function's own obligations carry the same terms and are
+				// reported below (baseline obligations that no longer discharge); nothing is concluded from this one
+				cc.undecided = append(cc.undecided, "rejected query: "+name)
 			} else {
 				fmt.Printf("ENGINE-ERROR: vacuous precondition in %s (%s)\n", o.Fn, o.Res.Status)
 				return 2
 			}
 			continue
 		}
-		if o.Res.Status == "error" {
+		if o.Res.Status == "error" && !(cc.baseline[name] && !o.ExpectSat && !o.Canary) {
 			fmt.Printf("ENGINE-ERROR: solver rejected the query for %s: %s\n", name, firstLine(o.Res.Raw))
 			return 2
 		}
+		// (a rejected query for an obligation that discharges on the unchanged tree falls through: it is reported
+		// below like any other baseline obligation that no longer discharges, with the solver's message attached)
 		if o.Canary {
 			knownSeen[o.CanaryOf] = true
 			if o.Res.Status != "unsat" {
@@ -481,7 +487,15 @@ func (cc *checkCtx) report(obs []*Obligation, reports []*FuncReport, writeBaseli
 			}
 		}
 		if missing > 0 {
+			// the function left the subset the generator handles: obligations that discharge on the unchanged tree
+			// can no longer be generated, so what they established is no longer established.  Reported like any other
+			// baseline obligation that stopped discharging, with the generator's reason; no input is claimed.
 			fmt.Printf("UNDECIDED property=%s function=%s: %s (%d baseline obligations not generated)\n", cc.prop, rep.Key, rep.Unsup, missing)
+			cc.violations++
+			name := rep.Key + "/not-generated"
+			path := filepath.Join(cc.outDir, "replays", sanitize(cc.prop+"-"+name)+".txt")
+			os.WriteFile(path, []byte(fmt.Sprintf("property: %s\nfailed obligation: %s\nreason: the verification-condition generator cannot handle the current body of %s (%s); %d obligations of this function that discharge on the unchanged tree were not generated, so they are no longer established\nno solver was run; no failing input is claimed\n", cc.prop, name, rep.Key, rep.Unsup, missing)), 0o644)
+			fmt.Printf("VIOLATION property=%s replay=%s obligation=%s no-failing-input-found\n", cc.prop, path, name)
 		}
 	}
 	for _, st := range stale {
